@@ -82,6 +82,8 @@ def _run_batch(job):
                     s.close()
                     s = None
                     continue
+                # a session always has a previous command (history expansion of `!!` needs one to show)
+                s.line('vh-mark WARMUP 0')
             nrec = len(s.records())
             nprompt = s.prompts()
             if ctx == 'C':
